@@ -143,7 +143,7 @@ func (fr *Frame) alloc(x *ssa.Alloc, st *State) Val {
 		return Val{T: x.Type(), Addr: &Addr{Kind: akLocal, CellID: id, RootT: et}}
 	}
 	v := fr.newObject(et, x.Type(), st, x.Comment)
-	if v.Addr != nil && v.Addr.Kind == akCell && privateVar(x) {
+	if v.Addr != nil && v.Addr.Kind == akCell && privateVar(x, func(f *ssa.Function) bool { ct := c.eng.contractOf(f); return ct != nil && ct.Iterator }) {
 		name, sort := c.cellHeap(et)
 		c.privateCells = append(c.privateCells, frozenCell{heap: name, sort: sort, ref: v.Addr.Ref})
 	}
@@ -180,7 +180,7 @@ func (fr *Frame) newObject(et types.Type, pt types.Type, st *State, hint string)
 // privateVar: a captured variable whose address never leaves the function: it is only read and written directly and
 // captured by closures that the function itself only calls or defers (never passes on, stores or starts with go).
 // Code behind `modifies everything` cannot reach such a variable.
-func privateVar(al *ssa.Alloc) bool {
+func privateVar(al *ssa.Alloc, isIterator func(*ssa.Function) bool) bool {
 	refs := al.Referrers()
 	if refs == nil {
 		return false
@@ -209,6 +209,13 @@ func privateVar(al *ssa.Alloc) bool {
 					}
 				case *ssa.Call:
 					if y.Call.Value != ssa.Value(x) {
+						return false
+					}
+				case *ssa.Store:
+					// the closure is kept in a local variable that is itself only ever called -- directly, or from
+					// closures that are handed to iterator functions (which only call them) or called directly
+					cell, ok := y.Addr.(*ssa.Alloc)
+					if !ok || y.Val != ssa.Value(x) || isIterator == nil || !callOnlyCell(cell, isIterator, 0) {
 						return false
 					}
 				case *ssa.DebugRef:
@@ -250,6 +257,107 @@ func privateVar(al *ssa.Alloc) bool {
 			}
 		default:
 			return false
+		}
+	}
+	return true
+}
+
+// callOnlyCell: a local variable holding a function value that is only ever loaded in order to be called, in the
+// function itself or in closures of it that are themselves only called directly or passed to iterator functions.
+func callOnlyCell(cell *ssa.Alloc, isIterator func(*ssa.Function) bool, depth int) bool {
+	if depth > 3 {
+		return false
+	}
+	loadsOnlyCalled := func(refs *[]ssa.Instruction, self ssa.Value) bool {
+		if refs == nil {
+			return false
+		}
+		for _, r := range *refs {
+			switch y := r.(type) {
+			case *ssa.UnOp:
+				if y.Op != token.MUL {
+					return false
+				}
+				lr := y.Referrers()
+				if lr == nil {
+					return false
+				}
+				for _, u := range *lr {
+					switch z := u.(type) {
+					case *ssa.Call:
+						if z.Call.Value != ssa.Value(y) {
+							return false
+						}
+					case *ssa.Defer:
+						if z.Call.Value != ssa.Value(y) {
+							return false
+						}
+					case *ssa.DebugRef:
+					default:
+						return false
+					}
+				}
+			case *ssa.Store:
+				if y.Addr != self || y.Val == self {
+					return false
+				}
+			case *ssa.DebugRef:
+			case *ssa.MakeClosure:
+				// handled by the caller
+			default:
+				return false
+			}
+		}
+		return true
+	}
+	if !loadsOnlyCalled(cell.Referrers(), cell) {
+		return false
+	}
+	for _, r := range *cell.Referrers() {
+		mc, ok := r.(*ssa.MakeClosure)
+		if !ok {
+			continue
+		}
+		fn, ok := mc.Fn.(*ssa.Function)
+		if !ok {
+			return false
+		}
+		for i, b := range mc.Bindings {
+			if b != ssa.Value(cell) {
+				continue
+			}
+			if i >= len(fn.FreeVars) || !loadsOnlyCalled(fn.FreeVars[i].Referrers(), fn.FreeVars[i]) {
+				return false
+			}
+			for _, u := range *fn.FreeVars[i].Referrers() {
+				if _, isMC := u.(*ssa.MakeClosure); isMC {
+					return false // captured again one level deeper: not followed
+				}
+			}
+		}
+		// the capturing closure itself: called directly, deferred, or an argument of an iterator function
+		mr := mc.Referrers()
+		if mr == nil {
+			return false
+		}
+		for _, u := range *mr {
+			switch z := u.(type) {
+			case *ssa.Call:
+				if z.Call.Value == ssa.Value(mc) {
+					continue
+				}
+				callee := z.Call.StaticCallee()
+				if callee == nil || !isIterator(callee) {
+					return false
+				}
+			case *ssa.Defer:
+				if z.Call.Value != ssa.Value(mc) {
+					return false
+				}
+			case *ssa.DebugRef:
+			default:
+				return false
+			}
 		}
 	}
 	return true
